@@ -467,7 +467,7 @@ void vh_finish(void)
 /* ---------------- guard buffers ---------------- */
 #define PG 4096
 #define CANW 256
-typedef struct { uint8_t *base; uint8_t *data; size_t lo, hi; int used; } garena;
+typedef struct { uint8_t *base; uint8_t *data; size_t lo, hi; int used, ro; } garena;
 static garena ga[VH_G_ARENAS];
 static inline uint8_t canary(size_t i) { return (uint8_t)(0xC3 ^ (i * 29)); }
 
@@ -482,10 +482,19 @@ void vh_guard_init(void)
         ga[a].base = m; ga[a].data = m + PG; ga[a].used = 0;
     }
 }
+/* make the data pages of an arena read-only (the buffer placed in it is an input the library may only read) or writable again */
+void vh_gprotect(int a, int readonly)
+{
+    garena *g = &ga[a];
+    if (!g->base || g->ro == !!readonly) return;
+    mprotect(g->data, VH_G_DATA, readonly ? PROT_READ : (PROT_READ | PROT_WRITE));
+    g->ro = !!readonly;
+}
 static void gset(int a, size_t lo, size_t hi)
 {
     garena *g = &ga[a];
     size_t i, s, e;
+    vh_gprotect(a, 0);
     if (g->used) vh_gunpoison(a);
     g->lo = lo; g->hi = hi; g->used = 1;
     s = lo > CANW ? lo - CANW : 0; e = hi + CANW < VH_G_DATA ? hi + CANW : VH_G_DATA;
@@ -534,6 +543,7 @@ int vh_gcheck(int a, long *where)
     garena *g = &ga[a];
     size_t i, s, e;
     if (!g->used) return 0;
+    vh_gprotect(a, 0);
     vh_gunpoison(a);
     s = g->lo > CANW ? g->lo - CANW : 0; e = g->hi + CANW < VH_G_DATA ? g->hi + CANW : VH_G_DATA;
     {
